@@ -7,6 +7,32 @@ pub fn find_operator(input: &str) -> Option<&str> {
     None
 }
 
+/// Returns true if `name` is the internal name of one of the binary operators.
+pub fn is_binary_operator(name: &str) -> bool {
+    matches!(
+        name,
+        ADD | SUBSTRACT
+            | DIVIDE
+            | MULTIPLY
+            | MODULO
+            | EQUALS
+            | NOT_EQUALS
+            | LESS
+            | LESS_EQUALS
+            | GREATER
+            | GREATER_EQUALS
+            | IN
+            | LOGICAL_OR
+            | LOGICAL_AND
+            | INDEX
+    )
+}
+
+/// Returns true if `name` is the internal name of one of the unary operators.
+pub fn is_unary_operator(name: &str) -> bool {
+    matches!(name, LOGICAL_NOT | NEGATE | NOT_STRICTLY_FALSE)
+}
+
 pub const CONDITIONAL: &str = "_?_:_";
 pub const LOGICAL_AND: &str = "_&&_";
 pub const LOGICAL_OR: &str = "_||_";
